@@ -143,7 +143,18 @@ fn apply(st: &mut State, step: &Step, counts: &mut Vec<&'static str>) -> Result<
                     });
                     (v, "From<&str>")
                 }
-                "FromString" => (track(|| ReprCString::from(input.clone())), "From<String>"),
+                "FromString" => {
+                    // an owned String as programs have them: exact, or with spare capacity (built
+                    // by pushing, or truncated) - the conversion takes the String, so whatever
+                    // it does with that buffer it must release it as what it is
+                    let spare = (step.arg(3).rem_euclid(4) as usize) * 5;
+                    let v = track(|| {
+                        let mut owned = String::with_capacity(input.len() + spare);
+                        owned.push_str(&input);
+                        ReprCString::from(owned)
+                    });
+                    (v, "From<String>")
+                }
                 _ => {
                     let v = track(|| {
                         let exact: Box<[u8]> = input.as_bytes().to_vec().into_boxed_slice();
@@ -230,6 +241,15 @@ fn apply(st: &mut State, step: &Step, counts: &mut Vec<&'static str>) -> Result<
             vcheck!(got == prefix(&input), "cstr.readback_mismatch", "ReprCStr::from(&CStr)", "reads {:?}, C string was {:?}", got, prefix(&input));
             let copy = r;
             vcheck!(copy == r && h(&copy) == h(&r) && format!("{}", r) == prefix(&input), "cstr.eq_mismatch", "ReprCStr", "copy of a ReprCStr differs");
+            // two borrowed strings compare by their text: same first character, different rest
+            let mut other_text = prefix(&input).to_string();
+            other_text.push('~');
+            let c2 = CString::new(other_text.clone()).expect("no interior NUL by construction");
+            let r2: ReprCStr = ReprCStr::from(c2.as_c_str());
+            vcheck!(r2 != r, "cstr.eq_mismatch", "ReprCStr", "borrowed {:?} and {:?} compare equal", prefix(&input), other_text);
+            let c3 = CString::new(prefix(&input)).expect("no interior NUL by construction");
+            let r3: ReprCStr = ReprCStr::from(c3.as_c_str());
+            vcheck!(r3 == r && h(&r3) == h(&r), "cstr.eq_mismatch", "ReprCStr", "two borrowed strings with the text {:?} at different addresses compare unequal", prefix(&input));
             Ok(format!("FromCStr len={}", got.len()))
         }
         "Drop" => {
